@@ -18,10 +18,12 @@ if TYPE_CHECKING:
 
 
 DEFAULT_INNER_TAG_MAP = {
-    "for": ["break", "continue"],
+    "for": ["break", "continue", "else"],
+    "tablerow": ["break", "continue"],
     "if": ["else", "elsif"],
-    "case": ["when"],
+    "case": ["when", "else"],
     "unless": ["else", "elsif"],
+    "translate": ["plural"],
 }
 
 
@@ -140,6 +142,13 @@ class TagAnalysis:
             if tag_name in block_tags:
                 block_stack.append(_BlockStackItem(token))
             elif tag_name in end_tags:
+                if not block_stack:
+                    # An "end" tag without an open block.
+                    unexpected_tags[tag_name].append(
+                        Span(self.template_name, token.start_index)
+                    )
+                    continue
+
                 start_block_tag = block_stack.pop()
                 if start_block_tag != tag_name[3:]:
                     # if start_block_tag.name not in inline_tags:
